@@ -91,10 +91,12 @@ class Harness:
         fresh_machine: bool = False,
         budget: Optional[int] = 4000,
         threads: bool = False,
+        yielding: bool = False,
     ) -> None:
         self.cfg = cfg
         self.rec = Recorder()
         self.rec.budget = budget
+        self.rec.yielding = yielding
         if extra_markers:
             extra_actions = dict(extra_actions or {})
             for name in extra_markers:
